@@ -245,7 +245,7 @@ def _classify(code):
         elif rfn.endswith(_MPQ):
             short = "mp/queues.py" if code.co_flags & 0x2 else None
         elif rfn.endswith(_MPP):
-            short = "mp/process.py" if code.co_qualname == "BaseProcess._bootstrap" else None
+            short = "mp/process.py" if code.co_qualname in ("BaseProcess._bootstrap", "BaseProcess.sentinel", "BaseProcess.is_alive", "BaseProcess.join", "BaseProcess.exitcode", "BaseProcess.start") else None
         elif rfn.endswith(_MPU):
             short = "mp/util.py" if code.co_qualname in _MPU_FUNCS else None
         if short is not None:
